@@ -1,6 +1,6 @@
 """C27 - BASIC file access stays inside the mounted drives.
 Spec DosPath.tla; models DosPath_MC*.cfg; trace spec DosPath_Trace; monitor vf/fsmon.py (sys.addaudithook)."""
-import os, re, json, shutil, tempfile, threading
+import os, re, json, shutil, tempfile, threading, logging
 from ..session import Sess
 from .. import core, fsmon
 
@@ -42,6 +42,19 @@ def is_device(p):
     if len(head) > 1 and head[0].upper() in _DEVS:
         return True
     return p.upper().strip() in _DOSDEV or p.upper() in _DOSDEV
+
+
+def dev_prefix_class(p):
+    """input class of the device prefix (text before the first colon)"""
+    sp = p.split(b':', 1)
+    if len(sp) == 1:
+        return 'none'
+    d = sp[0].upper()
+    if len(d) == 1 and d in b'@ABCDEFGHIJKLMNOPQRSTUVWXYZ':
+        return 'drive'
+    if d in b'@ABCDEFGHIJKLMNOPQRSTUVWXYZ':
+        return 'empty_or_run_of_drive_letters'
+    return 'other'
 
 
 def dot_blank(p):
@@ -150,7 +163,7 @@ class Box(object):
             self.taint = True
         self.snap = post
         info = {'kind': r[0], 'code': r[1] if r[0] == 'err' else 0, 'cls': cls, 'tag': tag, 'box': self,
-                'cwd0': pre['cwd'], 'out': (r[2] if len(r) > 2 else b'')[:200]}
+                'cwd0': pre['cwd'], 'out': (r[2] if len(r) > 2 else b'')[:200], 'exc': r[1] if r[0] == 'internal' else None}
         if r[0] in ('internal', 'exit', 'cut'):
             s.ex('CLOSE')
         self.events.append((e, info))
@@ -274,10 +287,13 @@ def run(ctx):
                        'current directories before); non-trivial = statements that issued at least one host operation or changed a cwd')
     rng = ctx.rng
     quick = ctx.quick()
+    logging.disable(logging.ERROR)     # pcbasic logs every unmapped errno of a refused host operation
     # 1. design: exhaustive bounded model check (+ in the thorough tier: all statement forms, two drives, nested mount,
     #    evolving file system, and the as-coded configuration in which TLC must find the reproduced escape)
-    ctx.model_check('DosPath_MC', cfg=ctx.pick('DosPath_MC.cfg', 'DosPath_MC_big.cfg'), workers=ctx.pick(8, 16), require_actions=False)
-    if not quick:
+    dev = bool(os.environ.get('C27_DEV'))
+    if not dev:
+        ctx.model_check('DosPath_MC', cfg=ctx.pick('DosPath_MC.cfg', 'DosPath_MC_big.cfg'), workers=ctx.pick(8, 16), require_actions=False)
+    if not quick and not dev:
         for cfg in ('DosPath_MC_all.cfg', 'DosPath_MC_2drv.cfg', 'DosPath_MC_nested.cfg', 'DosPath_MC_dyn.cfg'):
             ctx.model_check('DosPath_MC', cfg=cfg, workers=16, require_actions=False)
     r = ctx.tlc('DosPath_MC', 'DosPath_MC_ascoded.cfg', workers=1, tag='ascoded (must fail)')
@@ -295,7 +311,7 @@ def run(ctx):
     boxes.append(box)
     alpha = b'\\. A'
     strings = [b'']
-    for ln in range(ctx.pick(5, 6)):
+    for ln in range(ctx.pick(4, 6)):
         strings = strings + [s + bytes([c]) for s in strings if len(s) == ln for c in alpha]
     strings = [s for s in strings if s]
     for cwd in ([], ['A'], ['A', 'B']):
@@ -393,8 +409,12 @@ def judge(ctx, boxes):
                     nout += 1
             ctx.count([e['stmt'], e['path'], e.get('path2'), info['cwd0']], nontrivial=bool(e['ops']) or 'post' in e)
             if info['kind'] == 'internal':
-                ctx.reject('C27 internal error on %s %r: %s' % (e['stmt'], bytes(e['path']), info['out']),
-                           key={'clause': 'internal', 'stmt': e['stmt']}, data={'path': e['path']})
+                ctx.reject('C27 internal error on %s %r%s: %s' % (e['stmt'], bytes(e['path']),
+                                                                  (' AS %r' % bytes(e['path2'])) if 'path2' in e else '', info['exc']),
+                           key={'clause': 'internal', 'stmt': e['stmt'], 'exc': str(info['exc']).split(':')[0],
+                                'devprefix': ('empty_or_run_of_drive_letters' if 'path2' in e and dev_prefix_class(bytes(e['path2'])) ==
+                                              'empty_or_run_of_drive_letters' else dev_prefix_class(bytes(e['path'])))},
+                           data={'path': e['path'], 'path2': e.get('path2')})
         for (i, clause) in results[k]:
             e, info = part[i - 1]
             hist = [(x['stmt'], bytes(x['path'])) for x, _ in part[max(0, i - 6):i - 1]]
